@@ -13,7 +13,7 @@ import (
 type Event struct {
 	Kind     string // call go defer send store mapupdate return panic
 	In       ssa.Instruction
-	Callee   string  // for call/go/defer: resolved callee name ("invoke T.M" for interface calls)
+	Callee   string // for call/go/defer: resolved callee name ("invoke T.M" for interface calls)
 	Fn       *ssa.Function
 	Args     []*Term // call arguments (receiver first for methods/invokes), or [addr,val] for store, [chan,val] for send
 	Res      *Term   // call result term
@@ -38,20 +38,20 @@ func (a Atom) String() string {
 
 // PathState is the result of interpreting one acyclic CFG path.
 type PathState struct {
-	Fn     *ssa.Function
-	Blocks []*ssa.BasicBlock
-	env    map[ssa.Value]*Term
-	mem    map[string]*Term
-	memver map[string]int
-	Atoms  []Atom
-	Events []Event
-	loopy  map[string]bool
+	Fn         *ssa.Function
+	Blocks     []*ssa.BasicBlock
+	env        map[ssa.Value]*Term
+	mem        map[string]*Term
+	memver     map[string]int
+	Atoms      []Atom
+	Events     []Event
+	loopy      map[string]bool
 	Infeasible bool
-	defers []Event
-	StopBlock *ssa.BasicBlock // set when the path ended by re-entering this block
-	Inlines   []string        // helpers interpreted inline on this path
-	Panicked  bool            // the path ends in a panic raised inside an inlined helper
-	Resolved  map[string]*Term // call term key -> the value the (pure, branching) callee returns on this path
+	defers     []Event
+	StopBlock  *ssa.BasicBlock  // set when the path ended by re-entering this block
+	Inlines    []string         // helpers interpreted inline on this path
+	Panicked   bool             // the path ends in a panic raised inside an inlined helper
+	Resolved   map[string]*Term // call term key -> the value the (pure, branching) callee returns on this path
 }
 
 // PhiIn returns, for a path that ended by entering StopBlock, the term flowing into phi (a phi of StopBlock).
@@ -1323,6 +1323,12 @@ func knownNonNil(t *Term) bool {
 		}
 	case "alloc", "fn", "makeclosure":
 		return true
+	case "load":
+		if len(t.Args) == 1 && t.Args[0] != nil && t.Args[0].Op == "global" {
+			if g, ok := t.Args[0].V.(*ssa.Global); ok && nonNilGlobals[g] {
+				return true
+			}
+		}
 	}
 	return false
 }
